@@ -18,7 +18,7 @@ import (
 func init() {
 	Registry["C19"] = &Check{
 		Scenarios: c19Scenarios,
-		Rule: "S in {1,2} streams (stream numbers rotating over {0,1,5}, {16,0,65535}, {21,15,0}, {1,17,16} from one history to the next): per stream every sequence of <=2 messages over sizes {20 (header only), 40, 1100 bytes} from a list of eight; each stream's bytes cut into <=3 chunks at every choice of <=2 cut points from {inside the first header, header/body border, inside the body, message border, inside the second header, spanning point}; ALL merges (interleavings) of the per-stream chunk sequences; then EOF. S = 5: the first stream's message (40 or 1100 bytes) in two chunks around whole messages of four other streams with sizes from {40,48,56,80} (all 256 assignments x 24 arrival orders). S = 3: single messages of 20, 40 and 48 bytes per stream with <=1 cut, all merges (thorough: also the general family with <=1 cut). The chunks are fed through the in-memory SCTP backend (partial delivery: a read returns at most the buffer size of the head chunk) to a real diam.Conn created with diam.NewConn over diam.NewSCTPConnBackend, i.e. consumed by the library's own reader loop; the handler records (message, MessageStream()) and answers. One deterministic schedule per history (the quantifier is over chunk histories). Last clause: additionally the deferred-answer grid of C16 (all 16 stream pairs x 0-2 temporarily failing write attempts) and two application goroutines answering requests of streams {3,5} / {0,7} concurrently, every schedule up to preemption bound 2.",
+		Rule: "S in {1,2} streams (stream numbers rotating over {0,1,5}, {16,0,65535}, {21,15,0}, {1,17,16} from one history to the next): per stream every sequence of <=2 messages over sizes {20 (header only), 40, 1100 bytes} from a list of eight; each stream's bytes cut into <=3 chunks at every choice of <=2 cut points from {inside the first header, header/body border, inside the body, message border, inside the second header, spanning point}; ALL merges (interleavings) of the per-stream chunk sequences; then EOF. Bursts: between the two chunks of one stream's 40-byte message (cut at 10, 20, 30) a burst of another stream {30, 64, 66, 70, 140 x 1000 bytes, 100 x 1100, 3 x 30000, 192 x 1024} arrives, one message per chunk or re-cut into 8000-byte chunks, with or without a short message of a third stream in its middle (stream buffers of 30 KB to 192 KiB). S = 5: the first stream's message (40 or 1100 bytes) in two chunks around whole messages of four other streams with sizes from {40,48,56,80} (all 256 assignments x 24 arrival orders). S = 3: single messages of 20, 40 and 48 bytes per stream with <=1 cut, all merges (thorough: also the general family with <=1 cut). The chunks are fed through the in-memory SCTP backend (partial delivery: a read returns at most the buffer size of the head chunk) to a real diam.Conn created with diam.NewConn over diam.NewSCTPConnBackend, i.e. consumed by the library's own reader loop; the handler records (message, MessageStream()) and answers. One deterministic schedule per history (the quantifier is over chunk histories). Last clause: additionally the deferred-answer grid of C16 (all 16 stream pairs x 0-2 temporarily failing write attempts) and two application goroutines answering requests of streams {3,5} / {0,7} concurrently, every schedule up to preemption bound 2.",
 		Assume: []string{"the in-memory backend models one-to-one-socket recvmsg partial delivery (hook diam/sctp_verif.go, build tag verif)", "single default schedule per history"},
 		QuickBudget: 150, ThoroughBudget: 2400,
 	}
@@ -130,6 +130,9 @@ func merges(lens []int, fn func(order []int)) {
 	rec()
 }
 
+// c19Capped counts executions that hit the step cap (they give no verdict).
+var c19Capped int
+
 type c19Rec struct {
 	hbh, e2e uint32
 	stream   uint
@@ -163,6 +166,10 @@ func c19Run(cfgs []streamCfg, order []int) string {
 	panics := s.Panics()
 	blocked := s.BlockedLib()
 	s.Teardown()
+	if s.Capped {
+		c19Capped++
+		return ""
+	}
 	if len(panics) > 0 {
 		return "panic: " + strings.Join(panics, "; ")
 	}
@@ -283,6 +290,9 @@ func c19Scenarios(tier string) []*Scenario {
 		fs := fs
 		out = append(out, &Scenario{Name: fmt.Sprintf("streams=5/first-size=%d", fs), Seq: func(r *SeqResult) { c19Five(r, fs) }})
 	}
+	// a long burst of one stream (below, around and beyond 64 KiB, up to 192 KiB) piles up in its
+	// stream buffer while the message of another stream is stalled in the middle of its assembly
+	out = append(out, &Scenario{Name: "streams/burst-behind-a-stalled-stream", Seq: c19Burst})
 	// replies written later, while another stream's request is being handled, with and without
 	// temporary write errors that are retried (shared with C16)
 	out = append(out, &Scenario{Name: "streams/deferred-answer", Seq: c16Deferred})
@@ -294,6 +304,7 @@ func c19Scenarios(tier string) []*Scenario {
 }
 
 func c19Eval(r *SeqResult, cfgs []streamCfg) {
+	defer func() { r.Capped += c19Capped; c19Capped = 0 }()
 	lens := make([]int, len(cfgs))
 	for i, c := range cfgs {
 		lens[i] = len(c.chunks)
@@ -329,6 +340,7 @@ func c19Eval(r *SeqResult, cfgs []streamCfg) {
 // arrival order), so that four stream buffers are held at once while the first message is being
 // assembled.
 func c19Five(r *SeqResult, firstSize int) {
+	defer func() { r.Capped += c19Capped; c19Capped = 0 }()
 	saved := c19Streams
 	defer func() { c19Streams = saved }()
 	c19Streams = []uint16{3, 0, 17, 1, 65535}
@@ -373,5 +385,76 @@ func c19Five(r *SeqResult, firstSize int) {
 	}
 	if r.Sample == "" {
 		r.Sample = "five streams: the first stream's message in two chunks around whole messages of four other streams (256 size assignments x 24 orders)"
+	}
+}
+
+// c19Burst: the message of stream index 0 arrives in two chunks (cut inside the header, at its end,
+// inside the body); between them a burst of n messages of another stream arrives - one message per
+// chunk, or re-cut into chunks of 8000 bytes that ignore message boundaries - and, in some cases, a
+// short message of a third stream. All of it has to wait in the stream buffers.
+func c19Burst(r *SeqResult) {
+	saved := c19Streams
+	defer func() { c19Streams = saved }()
+	c19Streams = []uint16{0, 1, 9}
+	savedSteps := vs.DefaultMaxSteps
+	vs.DefaultMaxSteps = 5000000
+	c19Capped = 0
+	defer func() { vs.DefaultMaxSteps = savedSteps; r.Capped += c19Capped; c19Capped = 0 }()
+	for _, burst := range [][2]int{{30, 1000}, {64, 1000}, {66, 1000}, {70, 1000}, {100, 1100}, {3, 30000}, {140, 1000}, {192, 1024}} {
+		for _, cut := range []int{10, 20, 30} {
+			for _, recut := range []bool{false, true} {
+				for _, third := range []bool{false, true} {
+					n, sz := burst[0], burst[1]
+					first := c19Msg(0, 0, 40)
+					cfgs := []streamCfg{{sizes: []int{40}, chunks: [][]byte{first[:cut], first[cut:]}, desc: fmt.Sprintf("sizes[40] cuts[%d]", cut)}}
+					var sizes []int
+					var chunks [][]byte
+					var all []byte
+					for j := 0; j < n; j++ {
+						m := c19Msg(1, j, sz)
+						sizes = append(sizes, sz)
+						chunks = append(chunks, m)
+						all = append(all, m...)
+					}
+					if recut {
+						chunks = nil
+						for len(all) > 0 {
+							k := 8000
+							if k > len(all) {
+								k = len(all)
+							}
+							chunks = append(chunks, all[:k])
+							all = all[k:]
+						}
+					}
+					cfgs = append(cfgs, streamCfg{sizes: sizes, chunks: chunks, desc: fmt.Sprintf("%d messages of %d bytes in %d chunks", n, sz, len(chunks))})
+					order := []int{0}
+					for range chunks {
+						order = append(order, 1)
+					}
+					if third {
+						cfgs = append(cfgs, streamCfg{sizes: []int{48}, chunks: [][]byte{c19Msg(2, 0, 48)}, desc: "sizes[48] cuts[]"})
+						order = append(order[:1+len(chunks)/2], append([]int{2}, order[1+len(chunks)/2:]...)...)
+					}
+					order = append(order, 0)
+					r.Cases++
+					r.Distinct++
+					if r.Violation != "" {
+						continue
+					}
+					if v := c19Run(cfgs, order); v != "" {
+						var d []string
+						for i, c := range cfgs {
+							d = append(d, fmt.Sprintf("stream %d: %s", c19Streams[i], c.desc))
+						}
+						r.Violation = fmt.Sprintf("%s | %s; the burst arrives between the two chunks of stream %d", v, strings.Join(d, "; "), c19Streams[0])
+						r.Case = map[string]interface{}{"streams": d, "burst": burst, "cut": cut, "recut": recut, "third": third}
+					}
+				}
+			}
+		}
+	}
+	if r.Sample == "" {
+		r.Sample = "bursts of 30..192 messages (30 KB..192 KiB) of one stream between the two chunks of another stream's message"
 	}
 }
